@@ -252,7 +252,9 @@ def run(pid, tier, seed):
                 if f is not None:
                     fst, frv = proto.get(f, "status", ["?"])[0], proto.get(f, "rval", ["?"])[0]
                     definitive = lambda s: s in ("1", "2", "3", "9")
-                    if rv == "0" and frv == "0" and definitive(st) and definitive(fst):
+                    # an objective limit is legitimately reached on the way to an infeasible / unbounded verdict
+                    limit_ok = (st == "9" and fst in ("2", "3")) or (fst == "9" and st in ("2", "3"))
+                    if rv == "0" and frv == "0" and definitive(st) and definitive(fst) and not limit_ok:
                         if st != fst:
                             rep.violation("re-solve after edits reports %s but a fresh copy of the same problem is %s (after %s, %s)" %
                                           (solvelib.ST.get(st, st), solvelib.ST.get(fst, fst), last_edit, op), ctx,
